@@ -299,6 +299,47 @@ for _k, _v in ADDED.items():
     if _k in CHECKS:
         CHECKS[_k]["text"] = CHECKS[_k]["text"] + _v
 
+# what seed rounds 6-9 and the generated-mutant sweeps added (DESIGN.md 8.10-8.14)
+ADDED2 = {
+    "C01": " Sparse instance maps over all event frames, positional / Command.from_frame call styles, reused frame "
+           "buffers, the input frame must not be aliased by the result, commands without a device type decode the same "
+           "under every devicetype.",
+    "C02": " Surplus positional/keyword arguments, python -O runs, bool/IntEnum/int-subclass arguments, integer "
+           "destinations not shared between commands, preset maps.",
+    "C03": " (C13 also clears the table as a scan starts.)",
+    "C04": " Label/renumbering subclasses and other-length-first slices in spawned interpreters; compare, renumber, "
+           "compare again; read-only uses (hash, dict key, repr, pack) before a write; the kind-less public address "
+           "classes are refused by every frame size.",
+    "C05": " Reflected add / sum(), look-alike indices, values without a truth value, indices far beyond any frame "
+           "(2**63..10**30), assignment to every public view that has a setter.",
+    "C06": " Response subclasses declared before/after use (spawned interpreters), falsy frames, marker look-alikes, "
+           "assignment to raw_value, rendering with format specifications.",
+    "C07": " Every address once as the one already in use; faulty units combined with clashes; positional calls.",
+    "C09": " Edge bytes at every byte position of every multi-byte value; the bank's helper predicates judged; factory "
+           "images padded where the library's defaults are short.",
+    "C10": " write_raw with data that is no byte string; bad values / bad raw lengths.",
+    "C11": " Raw buffers handed out or in are edited by the caller; declared limits compared signed/unsigned.",
+    "C12": " Retry orders, ByRule-style mapper subclasses, read-only .mapping views, another empty map for the retry.",
+    "C13": " connect(scan_dev_inst=True) asks all 64 addresses inside the quiescent bracket; event-filter enum members "
+           "pinned; the table cleared as the scan starts.",
+    "C15": " power_supply() items inside transactions.",
+    "C16": " LUBA one-byte error responses and both garbled-answer reports (info 63 / 62, with or without a byte) while "
+           "exchanges run; two driver objects on one loop (harness/twin.py); two threads on one synchronous ATX driver.",
+    "C17": " A write failing at the n-th write; timeouts that coincide with the next report; mute/unmute with "
+           "follow-up queries; connect() by the application after 'failed' and during a retry wait (one retry chain "
+           "per outage, attempts exactly one interval apart); callers given up during an outage; no other caller's "
+           "frame inside a sequence/transaction caller's span on a connection; an in-flight send must fail when "
+           "exceptions were asked for.",
+    "C18": " Every LUBA error/unknown event info with 0-2 data bytes; verdicts of the real-time rigs must reproduce.",
+    "C20": " The application blocking the loop across a watcher deadline; frames between ENABLE DEVICE TYPE and the "
+           "extended command; repeat replaced by an intact/garbled backward frame and the same frame again; hasseb "
+           "reports of own traffic carry the caller's response and no error flag; traffic queued during the "
+           "reconnection handshake (found and fixed a defect, /repo 0891db8).",
+}
+for _k, _v in ADDED2.items():
+    if _k in CHECKS:
+        CHECKS[_k]["text"] = CHECKS[_k]["text"] + _v
+
 
 def main():
     checks = []
